@@ -14,9 +14,29 @@ from rules.shared_codec import tokens
 from rules.shared_count import count_rule
 
 
+def _plain_construction_rules(facts, rep, rule):
+    """make_reader only constructs: each decoder is `Decoder::new(reader)` wrapped in the CRC reader, with no further adaptor call that
+    changes what the decoder considers the end of its input (`single_frame()`, a custom buffer size: the bytes behind are then never
+    pulled through the checks that sit below -- MAC at end of ciphertext, CRC at end of data); and the raw accessor never goes through
+    the decoding reader (a raw copy would run the CRC check on compressed bytes)"""
+    ok = True
+    mr = facts.one(r"^read::make_reader$")
+    allowed = r"::new$|Crc32Reader|is_ae2_encrypted$|core::panicking::|fmt::Arguments|Result::<T, E>::unwrap$|Result::<T, E>::expect$|unsupported_zip_error$|convert::(From|Into)"
+    extra = sorted({(t.get("callee") or "?") for _, t in mr.calls() if not re.search(allowed, t.get("callee") or "?")})
+    ok &= bool(rep.check(not extra, rule, "make_reader:constructs-only", where(mr, mr.span), "decoders are built with their plain constructors, nothing else is called on them",
+                         "make_reader also calls %s: the decoder's notion of where its input ends (or how much it pulls) is changed" % extra[:3]))
+    gr = facts.find(r"^read::ZipFile::<'a>::get_raw_reader$")
+    if gr:
+        bad = sorted({(t.get("callee") or "?") for _, t in gr[0].calls() if re.search(r"get_reader$|make_reader$|Crc32Reader|Decoder", t.get("callee") or "")})
+        ok &= bool(rep.check(not bad, rule, "get_raw_reader:never-decodes", where(gr[0], gr[0].span), "the raw accessor unwraps to the bounded stream and never builds or uses the decoding reader",
+                             "get_raw_reader goes through %s: raw bytes are run through the checksum / decoder" % bad[:2]))
+    return ok
+
+
 def wrap_rules(facts, rep):
     rule = "C04-WRAP"
     ok = True
+    ok &= _plain_construction_rules(facts, rep, rule)
     adt = facts.adts.get("read::ZipFileReader")
     if not adt:
         raise AnchorLost("ZipFileReader enum")
